@@ -9,7 +9,9 @@ after any insertion history.
   -> large histories against std::map inside the harness (set abstraction only)."""
 import itertools
 import os
+import subprocess
 import sys
+import time
 
 sys.path.insert(0, os.path.join(os.path.dirname(os.path.abspath(__file__)), "..", "tools"))
 from checklib import *  # noqa
@@ -214,16 +216,18 @@ def oracle(mode, ops, out_line):
     return None
 
 
-def shrink(impl, mode, init, ops):
-    """greedy deletion of operations while the oracle still fails on the implementation"""
+def shrink(impl, mode, init, ops, budget=25.0):
+    """greedy deletion of operations while the oracle still fails on the implementation (time-boxed:
+    a defect that makes the table hang costs seconds per probe)"""
     cur = list(ops)
     changed = True
     rounds = 0
-    while changed and rounds < 4 and len(cur) > 1:
+    deadline = time.time() + budget
+    while changed and rounds < 4 and len(cur) > 1 and time.time() < deadline:
         changed = False
         rounds += 1
         i = 0
-        while i < len(cur) and len(cur) > 1:
+        while i < len(cur) and len(cur) > 1 and time.time() < deadline:
             cand = cur[:i] + cur[i + 1:]
             o = run_lines_robust(impl, [line_of(mode, init, cand)], timeout=3, per_line_timeout=2)
             if oracle(mode, cand, o[0]) is not None:
@@ -256,7 +260,7 @@ def main(argv):
     c.sample({"history": lines[len(lines) // 2][:400]})
     c.sample({"history": lines[-1]})
 
-    impl_out = run_lines_robust(impl, size_lines + lines, timeout=120, per_line_timeout=5)
+    impl_out = run_lines_robust(impl, size_lines + lines, timeout=30 if c.tier == "quick" else 120, per_line_timeout=3, max_failures=3)
     # --- correspondence
     if drv is None:
         c.broken.append("extraction/driver build failed: " + dlog[-600:])
@@ -318,7 +322,16 @@ def main(argv):
     #     in Double / the probe loops is a violation with the history as replay)
     if not c.violations:
         sub = [l for (b, m, i, ops), l in zip(cases, lines) if not b.startswith("exhaustive/F^")]
-        asan_lines(c, "hx_probing", sub if c.tier == "thorough" else sub[:1500] + sub[-200:], "(bucket array = exact-size heap block)")
+        sub = sub if c.tier == "thorough" else sub[:1500] + sub[-200:]
+        try:
+            asan_lines(c, "hx_probing", sub, "(bucket array = exact-size heap block)", timeout=120 if c.tier == "quick" else 900)
+        except subprocess.TimeoutExpired:
+            # the clean run needs seconds: a hang is the violation; locate the history
+            env = dict(os.environ, ASAN_OPTIONS="detect_leaks=0")
+            o = run_lines_robust(hx_bin("hx_probing", "asan"), sub, timeout=60, per_line_timeout=5, max_failures=1, env=env)
+            j = next((x for x, v in enumerate(o) if v == "TIMEOUT" or v.startswith("CRASH")), None)
+            c.violation("set-semantics: the table hangs (probing loop without an empty bucket) in the ASan build of the harness" + (" on history %r" % sub[j][:200] if j is not None else " (state-dependent: no single history hangs alone)"),
+                        {"history": sub[j] if j is not None else sub[0], "batch_size": len(sub), "how": "hx_probing (asan flavour) < histories"}, found_input=True)
 
     # --- large histories: the real table against std::map inside the harness (set abstraction only,
     #     justified by the refinement theorems); crosses the 2 MiB malloc -> mmap transition of HugeRealloc
@@ -332,7 +345,8 @@ def main(argv):
     big.append("T 16 %d %d %d %d" % (c.rng.randrange(1, 2 ** 62), 4000 if c.tier == "quick" else 20000, 22, 24))
     if c.violations:
         big = []          # a failing input is already in hand; the large runs could only hang on the same defect
-    big_out = run_lines_robust(impl, big, timeout=300 if c.tier == "quick" else 900, per_line_timeout=120, max_failures=1)
+    # the clean run needs a few seconds: a hang is reported right away as the violation
+    big_out = run_lines_robust(impl, big, timeout=45 if c.tier == "quick" else 400, per_line_timeout=20 if c.tier == "quick" else 150, max_failures=1)
     for l, o in zip(big, big_out):
         c.count(l, bucket="large/std::map-reference %s ops" % l.split()[3])
         if o == "SKIPPED":
